@@ -161,6 +161,8 @@ def run(prog, rep, tier, cfg):
     X.accumulator_integrity('K12', 'running-totals', [c for c in prog.crates if c.startswith('fil_actor')], 'running totals of amounts')
     X.no_dropped_results('K14', 'results-not-discarded', [c for c in prog.crates if c.startswith('fil_actor')], 'no Result of a call is discarded')
     X.tolerated_failures('K15', 'tolerated-failures', [c for c in prog.crates if c.startswith('fil_actor')], 'tolerated failures are the reviewed ones')
+    X.write_sites_preserved('K16', 'updates-present', 'fil_actor_miner', ['State.pre_commit_deposits', 'State.locked_funds', 'State.initial_pledge', 'State.fee_debt'], 'state updates do not disappear')
+    X.write_sites_preserved('K16', 'updates-present', 'fil_actor_paych', ['State.to_send'], 'state updates do not disappear')
 
 
 
